@@ -34,14 +34,15 @@ type entry struct {
 type Sim struct {
 	T *tape.Tape
 
-	mu       sync.Mutex
-	parked   map[string]*entry
-	draining bool
-	trace    []string
-	events   []Event
-	start    time.Time
-	Steps    int
-	MaxSteps int
+	mu        sync.Mutex
+	parked    map[string]*entry
+	draining  bool
+	trace     []string
+	traceStep []int
+	events    []Event
+	start     time.Time
+	Steps     int
+	MaxSteps  int
 
 	// TimeWeight is the weight of "advance time" relative to a parked entry's weight.
 	TimeWeight int
@@ -59,6 +60,10 @@ type Sim struct {
 	// (e.g. replaces the per-process sandbox directory).
 	Norm func(string) string
 
+	// MaxSlice bounds the slices of a time jump; NoEarlyStop disables the early stop.
+	MaxSlice    time.Duration
+	NoEarlyStop bool
+
 	schedHash uint64
 	idle      int
 }
@@ -73,10 +78,10 @@ type Event struct {
 func New(tp *tape.Tape) *Sim {
 	return &Sim{
 		T: tp, parked: map[string]*entry{}, start: time.Now(), MaxSteps: 600, TimeWeight: 1,
-		ClassWeight: map[string]int{},
+		ClassWeight:  map[string]int{},
 		Advances:     []time.Duration{time.Millisecond, 16 * time.Millisecond, 100 * time.Millisecond, time.Second, 10 * time.Second, 30 * time.Second, time.Minute},
 		IdleAdvances: []time.Duration{16 * time.Millisecond, time.Second, 10 * time.Second, 30 * time.Second, time.Minute, 5 * time.Minute},
-		schedHash:   1469598103934665603,
+		schedHash:    1469598103934665603,
 	}
 }
 
@@ -107,13 +112,28 @@ func (s *Sim) Logf(format string, a ...any) {
 	}
 	s.mu.Lock()
 	s.trace = append(s.trace, fmt.Sprintf("%8.3fs ", time.Since(s.start).Seconds())+line)
+	s.traceStep = append(s.traceStep, s.Steps)
 	s.mu.Unlock()
 }
 
+// Trace returns the log. Lines that goroutines emitted concurrently within one scheduler
+// step (e.g. two clients noticing the same close at the same instant) are put in
+// canonical order; the decision line of the step stays first.
 func (s *Sim) Trace() []string {
 	s.mu.Lock()
 	defer s.mu.Unlock()
-	return append([]string(nil), s.trace...)
+	out := append([]string(nil), s.trace...)
+	for i := 0; i < len(out); {
+		j := i + 1
+		for j < len(out) && s.traceStep[j] == s.traceStep[i] {
+			j++
+		}
+		if j-i > 2 {
+			sort.Strings(out[i+1 : j])
+		}
+		i = j
+	}
+	return out
 }
 
 // GID is a short deterministic id of the calling goroutine (runtime seam lineage).
@@ -265,9 +285,7 @@ func (s *Sim) Step(allowTime bool, filter Filter) (progressed bool) {
 			adv = s.IdleAdvances
 		}
 		d := adv[s.T.Draw(len(adv), "advance")]
-		s.hash("T", d.String())
-		s.Logf("advance time by %v", d)
-		time.Sleep(d)
+		s.Advance(d)
 		return true
 	}
 	s.mu.Lock()
@@ -284,11 +302,55 @@ func (s *Sim) Step(allowTime bool, filter Filter) (progressed bool) {
 	return true
 }
 
-// Advance moves the fake clock by d (root goroutine only).
+// Advance moves the fake clock by up to d (root goroutine only). The jump is made in
+// growing slices (1 ms, x1.25 each) and stops early as soon as a goroutine sits at a park
+// point, so the simulator never holds a goroutine parked through a long jump: timers that
+// fire inside the interval get their turn at (close to) their own time.
 func (s *Sim) Advance(d time.Duration) {
 	s.hash("T", d.String())
-	s.Logf("advance time by %v", d)
-	time.Sleep(d)
+	start := time.Now()
+	slice := time.Millisecond
+	if s.MaxSlice > 0 && slice > s.MaxSlice {
+		slice = s.MaxSlice
+	}
+	s.mu.Lock()
+	before := make(map[string]bool, len(s.parked))
+	for k := range s.parked {
+		before[k] = true
+	}
+	s.mu.Unlock()
+	for left := d; left > 0; {
+		if slice > left {
+			slice = left
+		}
+		time.Sleep(slice)
+		left -= slice
+		synctest.Wait()
+		s.mu.Lock()
+		n := 0
+		for k := range s.parked {
+			if !before[k] {
+				n++
+			}
+		}
+		s.mu.Unlock()
+		if n > 0 && !s.NoEarlyStop {
+			break
+		}
+		slice += slice / 4
+		if slice < time.Millisecond {
+			slice = time.Millisecond
+		}
+		if s.MaxSlice > 0 && slice > s.MaxSlice {
+			slice = s.MaxSlice
+		}
+	}
+	got := time.Since(start)
+	if got == d {
+		s.Logf("advance time by %v", d)
+	} else {
+		s.Logf("advance time by %v (of %v: a goroutine reached a park point)", got, d)
+	}
 }
 
 func (s *Sim) hash(a, b string) {
